@@ -220,8 +220,20 @@ def zoom_run(tmpdir, tag, case):
     def go():
         if out.exists():
             os.remove(out)
-        cooler.zoomify_cooler(paths if len(paths) > 1 or case.get("aslist") else paths[0], str(out), list(case["resolutions"]),
-                              chunksize=case["chunksize"], nproc=case.get("nproc", 1))
+        if case.get("via") == "cli":     # first base positional, the others through -i / --base-uri
+            from cooler.cli import cli
+            from click.testing import CliRunner
+            args = ["zoomify", "-o", str(out), "-c", str(case["chunksize"]), "-r", ",".join(str(r) for r in case["resolutions"])]
+            for p in paths[1:]:
+                args += ["--base-uri", p]
+            r = CliRunner().invoke(cli, args + [paths[0]])
+            if r.exit_code != 0:
+                if isinstance(r.exception, ValueError):
+                    raise r.exception
+                raise RuntimeError(f"exit {r.exit_code}: {r.exception!r}")
+        else:
+            cooler.zoomify_cooler(paths if len(paths) > 1 or case.get("aslist") else paths[0], str(out), list(case["resolutions"]),
+                                  chunksize=case["chunksize"], nproc=case.get("nproc", 1))
         listing = sorted(fileops.list_coolers(str(out)))
         levels = {}
         for g in listing:
